@@ -224,6 +224,52 @@ def exc_obs(ex: BaseException):
     }
 
 
+class FormattingHandler(__import__("logging").Handler):
+    """what a host's log handler does with a record: format it (message % args, exception text) — a NullHandler or
+    a disabled logger never does, which hides every formatting problem and every debug-only code path"""
+
+    def emit(self, record):
+        try:
+            self.format(record)
+        except Exception:  # noqa: BLE001
+            self.handleError(record)
+
+
+@contextlib.contextmanager
+def host_process(case):
+    """the environment of the HOST process for one case: logging configured at DEBUG with a formatting handler
+    (`logging: "debug"`), and `sys.stdout` as the host may have it — not UTF-8 (`ascii`, `cp1252`) or closed"""
+    import logging
+
+    root = logging.getLogger()
+    saved = (root.level, list(root.handlers), logging.root.manager.disable)
+    h = None
+    if case.get("logging") == "debug":
+        logging.disable(logging.NOTSET)
+        h = FormattingHandler()
+        h.setFormatter(logging.Formatter("%(asctime)s %(name)s %(levelname)s %(message)s"))
+        root.addHandler(h)
+        root.setLevel(logging.DEBUG)
+    kind = case.get("stdout", "utf-8")
+    if kind in ("ascii", "cp1252"):
+        out = io.TextIOWrapper(io.BytesIO(), encoding=kind, errors="strict", write_through=True)
+    else:
+        out = io.StringIO()
+        if kind == "closed":
+            out.close()
+    try:
+        with contextlib.redirect_stdout(out):
+            yield
+    finally:
+        if h is not None:
+            root.removeHandler(h)
+        for x in list(root.handlers):
+            if x not in saved[1]:
+                root.removeHandler(x)
+        root.setLevel(saved[0])
+        logging.disable(saved[2])
+
+
 def _run_entry(case, cfg_path, obs):
     import anyio
     from chuk_mcp.config import load_config
@@ -232,8 +278,7 @@ def _run_entry(case, cfg_path, obs):
     names = case["names"]
     entry = case["entry"]
     verbose = bool(case.get("verbose"))
-    buf = io.StringIO()
-    with contextlib.redirect_stdout(buf):
+    with host_process(case):
         legacy = case.get("legacy")
         if entry == "loader" and legacy in ("transport", "asyncgen"):
             # the old package layout: `chuk_mcp.mcp_client.StdioClient` (today's StdioTransport) and the old
